@@ -138,6 +138,14 @@ pub fn gen_date(g: &mut G<'_>) -> (i32, u32, u32) {
     (y, m, d)
 }
 
+/// a chrono date whose year lies outside 0..=9999 (chrono's own range is about +-262000)
+pub fn gen_date_far(g: &mut G<'_>) -> (i32, u32, u32) {
+    let y = *g.pick(&[10_000i32, 12_345, 65_535, 65_536, 65_537, 70_000, 131_072, 262_142, -1, -44, -4713, -65_536, -262_143]);
+    let m = g.range(1, 12) as u32;
+    let d = g.range(1, 28) as u32;
+    (y, m, d)
+}
+
 pub fn gen_micros(g: &mut G<'_>) -> u32 {
     match g.weighted(&[3, 2, 3]) {
         0 => 0,
@@ -675,6 +683,14 @@ pub fn gen_refusable(g: &mut G<'_>, c: Option<&ColSpec>) -> Option<Val> {
             1 => Val { base, wrap: Wrap::RefNone },
             _ => Val { base: Base::My(MyVal::Null), wrap: *g.pick(&[Wrap::Plain, Wrap::Ref]) },
         });
+    }
+    if matches!(c.coltype, T_DATE | T_DATETIME | T_TIMESTAMP) && g.coin() {
+        // the right type, but a year the two-byte wire field cannot carry
+        let (y, m, d) = gen_date_far(g);
+        if !(0..=65_535).contains(&y) {
+            let base = if c.coltype == T_DATE { Base::Date(y, m, d) } else { Base::DateTime(y, m, d, 1, 2, 3, if g.coin() { 0 } else { 5 }) };
+            return Some(Val { base, wrap: gen_wrap(g, false) });
+        }
     }
     let int_col = crate::model::col_int_range(c.coltype, c.unsigned()).is_some();
     for _ in 0..4 {
